@@ -30,6 +30,10 @@ ATTR_TEXTS = [
     'declare void @f() #0\n\ndeclare void @g() #1\n\nattributes #0 = { nounwind alignstack=8 "\\61" }\nattributes #1 = { alignstack=8 readnone "a" }\n',
     'declare void @f() #0\n\ndeclare void @g() #1\n\ndeclare void @h() #2\n\nattributes #0 = { "k"="v" nounwind }\nattributes #1 = { "\\6B"="v" readnone }\nattributes #2 = { "k"="\\76" }\n',
     'declare void @f() #3\n\ndeclare void @g() #7\n\nattributes #3 = { align=8 "x" }\nattributes #7 = { "\\78" align=8 }\nattributes #3 = { "x" noinline }\n',
+    # one attribute group ID defined three times: the later definitions add SEVERAL attributes the first one lacks (merged in textual order; a merge that
+    # goes through a map prints them in a different order from parse to parse)
+    'declare void @f() #0\n\nattributes #0 = { nounwind }\nattributes #0 = { readnone noinline "k"="v" cold }\nattributes #0 = { "z" nounwind uwtable "a"="b" norecurse }\n',
+    'declare void @f() #1\n\ndeclare void @g() #2\n\nattributes #1 = { "a" }\nattributes #2 = { cold }\nattributes #1 = { "b" "c" "d" "e" "f" "g" "h" }\nattributes #2 = { noinline nounwind readnone uwtable norecurse }\n',
 ]
 
 
